@@ -296,7 +296,23 @@ func runC19(r *Run) {
 				}
 			}
 		})
-		r.S.Go(fmt.Sprintf("peer%d", ci), func() { peer.Drain() })
+		echo := ci%2 == 0 // half of the peers answer a Close frame at once (Close then returns while other connections are still busy)
+		r.S.Go(fmt.Sprintf("peer%d", ci), func() {
+			if !echo {
+				peer.Drain()
+				return
+			}
+			seen := 0
+			for {
+				f := peer.Next(&seen)
+				if f == nil {
+					return
+				}
+				if f.Opcode == wsref.OpClose {
+					peer.Send(wsref.Frame{Fin: true, Opcode: wsref.OpClose, Payload: f.Payload})
+				}
+			}
+		})
 	}
 	r.S.Loop()
 	if r.S.Aborted != "" {
